@@ -148,10 +148,9 @@ func (m *monitor) walk(b bo.Box, p bo.Box) {
 		}
 	case "marker":
 	case "footnote-call":
-		if p != nil && ownerKey(p) == ownerKey(b) {
-			break // a piece (text box) of the call
-		}
-		if !m.checkCall(b, k, e) {
+		// the call is the box carrying the link to the footnote box; its text box, and the
+		// anonymous block / line box a grid container wraps around it, bear the same pseudo type
+		if f.Footnote != nil && !m.checkCall(b, k, e) {
 			return
 		}
 	case "footnote-marker":
@@ -590,16 +589,23 @@ func (m *monitor) checkElements() {
 			pcd = e.parent.cd
 		}
 		what := fmt.Sprintf("element n%d (specified display %s, float %q, position %q, computed display %s)", n.ID, specifiedDisplay(n), n.Float, n.Pos, e.cd)
+		cd := e.cd
 		if e.footnote {
 			// its box is a child of the footnote area (a block container), whatever its DOM parent is
 			pcd = "block"
+			if got := m.topmost[key]; n.FD == "compact" && len(got) > 0 && (kindOf(got[0]) == kBlock || kindOf(got[0]) == kBlockRepl) {
+				// css-gcpm-3 §2.4 compact: "the user agent determines whether a given footnote element is
+				// placed as an inline element or a block element": either is taken, consistently
+				cd = "block"
+				m.res.Count("footnote_compact_as_block", 1)
+			}
 			what = fmt.Sprintf("footnote element n%d (specified display %s, footnote-display %q, position %q, display in the footnote area %s)", n.ID, specifiedDisplay(n), n.FD, n.Pos, e.cd)
 			if c := m.calls[n.ID]; c != 1 {
 				m.fail("footnote-call-count", "%s has %d ::footnote-call boxes in the tree, expected exactly one", what, c)
 				return
 			}
 		}
-		m.checkOwner(key, e.cd, e.replaced, pcd, what)
+		m.checkOwner(key, cd, e.replaced, pcd, what)
 		if m.res.Verdict == fw.Violation {
 			return
 		}
@@ -610,7 +616,7 @@ func (m *monitor) checkElements() {
 				return
 			}
 			m.res.Count("footnote_elements_checked", 1)
-			m.res.Count("footnote_display_"+e.cd, 1)
+			m.res.Count("footnote_display_"+cd, 1)
 			m.res.Count("footnote_specified_"+strings.ReplaceAll(specifiedDisplay(n), " ", "_"), 1)
 		} else if c := m.calls[n.ID] + m.fmarkers[n.ID]; c != 0 {
 			m.fail("footnote-of-non-footnote", "%s is no footnote element but has %d ::footnote-call / ::footnote-marker boxes", what, c)
@@ -888,10 +894,6 @@ func soleLine(b bo.Box) bool {
 // BuildFormattingStructure (layout finds it there by identity).
 func (m *monitor) checkCall(b bo.Box, k kind, e *einfo) bool {
 	fb := b.Box().Footnote
-	if fb == nil {
-		m.fail("footnote-call-dangling", "%s links no footnote box", desc(b))
-		return false
-	}
 	fe := m.info(fb.Box().Element)
 	if fe == nil {
 		m.fail("provenance-unknown-element", "%s links the footnote box %s of an element that is not a rendered element of the document", desc(b), desc(fb))
